@@ -214,6 +214,14 @@ func (r *Runner) exec(st Step, res *StepResult) {
 	real.Unstable = r.W.Rec.Unstable()
 	real.CacheOps = r.W.Cache.TakeOps()
 	res.Real = real
+	if pred.Actions["timeout-fired"] > 0 && real.Invocations < pred.Invocations {
+		// The model lets an always-fires Timeout fire while the function beneath it is blocked. A timer of a few
+		// milliseconds can also win against the policies between the Timeout and the function when this process is not
+		// scheduled for that long (seen on an oversubscribed machine): then the function is never entered, which is just as
+		// much "the limit elapsed" as the case the model describes, but the inner policies saw something else. Not judged.
+		res.Discard = "fire-before-function"
+		return
+	}
 	r.compareExec(st, pred, real, id, res)
 }
 
